@@ -218,17 +218,17 @@ theorem hits_irrelevant (a b : List Event) (ha : ∀ e ∈ a, e.Valid) (hb : ∀
 /-- lane-count rule for the outer barrels (no lane has announced a fatal state): exactly 8
     (middle) / 14 (outer) lanes -/
 theorem lane_count_iff_ml (fs : LaneFrames) :
-    frameLanesValid .middle fs none = .ok (decide (fs.length = 8)) := by
+    frameLanesValid .middle fs none = decide (fs.length = 8) := by
   unfold frameLanesValid expectedLanes
   by_cases h : fs.length = 8 <;> simp [h]
 theorem lane_count_iff_ol (fs : LaneFrames) :
-    frameLanesValid .outer fs none = .ok (decide (fs.length = 14)) := by
+    frameLanesValid .outer fs none = decide (fs.length = 14) := by
   unfold frameLanesValid expectedLanes
   by_cases h : fs.length = 14 <;> simp [h]
 
 /-- inner barrel, no fatal lanes: 3 lanes forming one of the fixed groups -/
 theorem lane_count_iff_ib (fs : LaneFrames) :
-    frameLanesValid .inner fs none = .ok (decide (fs.length = 3) &&
+    frameLanesValid .inner fs none = (decide (fs.length = 3) &&
       (sortNat (fs.map (fun f => ibLane f.1)) == [0, 1, 2] || sortNat (fs.map (fun f => ibLane f.1)) == [3, 4, 5] ||
        sortNat (fs.map (fun f => ibLane f.1)) == [6, 7, 8])) := by
   unfold frameLanesValid expectedLanes
